@@ -595,4 +595,3 @@ Proof.
     rewrite <- lin_emb. exact (Hf p Hp).
 Qed.
 
-Print Assumptions isotropic_maximal.
